@@ -909,9 +909,86 @@ def _rp_plugin():
     return _RP
 
 
-def real_world(tcp=False):
+_HOOKS = None
+
+
+def _hooks_plugin():
+    """a user HttpProxyBasePlugin whose hooks misbehave on request paths that ask for it
+    (/verif-<mode>); every other request passes through untouched"""
+    global _HOOKS
+    if _HOOKS is None:
+        from proxy.http.proxy import HttpProxyBasePlugin
+        from proxy.http.exception import HttpRequestRejected
+        from proxy.http.responses import okResponse
+
+        class VerifProxyHooks(HttpProxyBasePlugin):
+            mode = None
+
+            def _mode(self, request):
+                path = request.path or b''
+                k = path.find(b'/verif-')
+                if k >= 0:
+                    self.mode = path[k + 7:].split(b'?')[0].decode('ascii', 'replace')
+                return self.mode
+
+            def before_upstream_connection(self, request):
+                m = self._mode(request)
+                if m == 'reject-before':
+                    raise HttpRequestRejected(status_code=403, reason=b'Forbidden by plugin')
+                if m == 'drop-before':
+                    raise HttpRequestRejected()
+                if m == 'boom-before':
+                    raise RuntimeError('plugin failure before connect')
+                if m == 'no-connect':
+                    self.client.queue(okResponse(content=b'from plugin'))
+                    return None
+                return request
+
+            def handle_client_request(self, request):
+                m = self.mode
+                if m == 'reject-after':
+                    raise HttpRequestRejected(status_code=404, reason=b'Blocked by plugin')
+                if m == 'drop-after':
+                    raise HttpRequestRejected()
+                if m == 'boom-after':
+                    raise RuntimeError('plugin failure after connect')
+                if m == 'none-after':
+                    return None
+                return request
+
+            def handle_upstream_chunk(self, chunk):
+                if self.mode == 'boom-chunk':
+                    raise RuntimeError('plugin failure on upstream chunk')
+                return chunk
+
+            def on_upstream_connection_close(self):
+                if self.mode == 'boom-close':
+                    raise RuntimeError('plugin failure on close')
+
+            def on_access_log(self, context):
+                if self.mode == 'boom-log':
+                    raise RuntimeError('plugin failure on access log')
+                return context
+
+        _HOOKS = VerifProxyHooks
+    return _HOOKS
+
+
+PLUGIN_MODES = ['reject-after', 'drop-after', 'reject-before', 'drop-before', 'no-connect', 'none-after',
+                'boom-before', 'boom-after', 'boom-chunk']
+# a hook raising *while the connection is being closed* (on_upstream_connection_close / on_access_log inside
+# HttpProxyPlugin.on_client_connection_close) makes the proxy skip upstream.close(): candidate finding D11c,
+# kept out of the generated roles until it is fixed or listed in known_findings.json (c10.finding_witnesses)
+PLUGIN_MODES_CLOSE_HOOKS = ['boom-close', 'boom-log']
+
+
+def real_plugins():
     from proxy.plugin import WebServerPlugin
-    return RealWorld(args=REAL_ARGS, tcp=tcp, plugins=[_rp_plugin(), WebServerPlugin])
+    return [_rp_plugin(), WebServerPlugin, _hooks_plugin()]
+
+
+def real_world(tcp=False):
+    return RealWorld(args=REAL_ARGS, tcp=tcp, plugins=real_plugins())
 
 
 RESP = b'HTTP/1.1 200 OK\r\nContent-Length: 5\r\n\r\nhello'
@@ -934,6 +1011,14 @@ def good_script(role, i):
         return [['cs', (b'CONNECT up%d.example:%d HTTP/1.1\r\nHost: up%d.example:%d\r\n\r\n' % (i, 8000 + i, i, 8000 + i)).hex()],
                 ['cs', b'\x16\x03\x01client-hello'.hex()], ['us', b'\x16\x03\x03server-hello'.hex()],
                 ['cs', b'appdata-1'.hex()], ['us', b'appdata-2'.hex()], ['cc']]
+    if role.startswith('p:'):
+        # forward proxy with a user plugin that rejects / drops / fails in the hook named by the mode
+        mode = role[2:]
+        steps = [['cs', (b'GET http://up%d.example:%d/verif-%s HTTP/1.1\r\nHost: up%d.example:%d\r\n\r\n'
+                         % (i, 8000 + i, mode.encode(), i, 8000 + i)).hex()]]
+        if mode in ('boom-chunk', 'boom-close', 'boom-log', 'none-after'):
+            steps.append(['us', RESP.hex()])
+        return steps + [['cc']]
     if role == 'web404':
         return [['cs', b'GET /nope HTTP/1.1\r\nHost: x\r\n\r\n'.hex()], ['cc']]
     if role == 'webroute':
@@ -946,8 +1031,9 @@ def good_script(role, i):
     raise ValueError(role)
 
 
-ROLES = ['fwd', 'fwdka', 'post', 'tun', 'web404', 'webroute', 'rev', 'revka']
-CANARY_ROLES = ['fwd', 'post', 'tun', 'web404', 'webroute', 'rev']
+PLUGIN_ROLES = ['p:' + m for m in PLUGIN_MODES]
+ROLES = ['fwd', 'fwdka', 'post', 'tun', 'web404', 'webroute', 'rev', 'revka'] + PLUGIN_ROLES
+CANARY_ROLES = ['fwd', 'post', 'tun', 'web404', 'webroute', 'rev', 'p:reject-after', 'p:no-connect']
 
 
 def _fault(name):
@@ -1460,7 +1546,7 @@ def refine_real(case):
     klass = _rec_handler_class()
     rec = Recorder()
     klass.rec = rec
-    w = RealWorld(args=REAL_ARGS, tcp=bool(case.get('tcp')), work_klass=klass, plugins=[_rp_plugin(), WebServerPlugin])
+    w = RealWorld(args=REAL_ARGS, tcp=bool(case.get('tcp')), work_klass=klass, plugins=real_plugins())
     fd_snapshot.world = w
     toks = []
     want = []
